@@ -31,6 +31,7 @@ structure CallI where
   list : List String
   failed : List String
   err : Option E
+  gone : Bool := false
   deriving Inhabited
 
 structure FnO where
@@ -146,10 +147,14 @@ def judge (j : Json) : Except String Verdict := do
     return { agree := false, spec := true, why := s!"harness error: {note}", cover := ["error"] }
   if kind == "unstarted" || kind == "stopped" || kind == "starting-dial" || kind == "starting-mute" then
     return ← judgeLone inp obs kind
+  if status == "skipped" then
+    -- lostconn: the machine did not let the case happen (three attempts): recorded, not judged
+    return { agree := true, spec := true, excluded := true, sig := "lostconn:skipped",
+             why := s!"case skipped: {note}", cover := [s!"kind:{kind}", "lostconn:skipped"] }
   -- decode
   let callsI ← (← arrOf inp "calls").mapM fun c => do
     pure { u := ← getNat c "u", p := ← getNat c "p", list := ← getStrList c "list",
-           failed := ← getStrList c "failed", err := errIn c : CallI }
+           failed := ← getStrList c "failed", err := errIn c, gone := getBoolD c "gone" : CallI }
   let fns ← (← arrOf obs "fn").mapM fun f => do
     pure { sin := ← getNat f "in", sout := ← getNat f "out", token := ← getInt f "token",
            list := ← getStrList f "list" : FnO }
@@ -205,7 +210,9 @@ def judge (j : Json) : Except String Verdict := do
     if ok then (false, s, w) else (false, sig, why)
   -- a run in which every update call returned but a runtime REQUEST is still pending is outside
   -- what C19 claims (it says nothing about requests completing): recorded, not judged
-  let onlyRequestsPending := status == "blocked" && kind == "upd" && callsO.all (·.done)
+  let goneU (u : Nat) : Bool := (ci[u]?.map (·.gone)).getD false
+  let onlyRequestsPending := status == "blocked" && (kind == "upd" || kind == "lostconn") &&
+    callsO.all (fun c => c.done || goneU c.u)
   if status == "blocked" && !onlyRequestsPending then
     (ok, sig, why) := fail ok sig why "C19:blocked" s!"calls still pending: {note}"
   match unknownFn with
@@ -220,7 +227,36 @@ def judge (j : Json) : Except String Verdict := do
   for u in [0:nU] do
     let c := ci[u]!
     let o := co[u]!
-    if !o.done then
+    if c.gone then
+      -- the caller of this call went away while the callback was running for it (the plan makes
+      -- the fault follow the callback's entry): the update must still have reached the callback
+      -- exactly once, unchanged; the caller sees the transport's error, or — if the reply won the
+      -- race — exactly the callback's result, or nothing; never a result the callback did not give
+      let inv := fnOf[u]!
+      if inv.length == 0 then
+        if status != "blocked" then
+          (ok, sig, why) := fail ok sig why "C19:once:not-delivered" s!"call {u} of plugin {c.p} (caller gone): UpdateFn was entered for it but never completed"
+      else if inv.length > 1 then
+        (ok, sig, why) := fail ok sig why "C19:once:delivered-twice" s!"UpdateFn ran {inv.length} times for call {u} of plugin {c.p} (caller gone)"
+      else
+        let f := fns[inv.head!]!
+        if f.list != c.list then
+          (ok, sig, why) := fail ok sig why "C19:passthrough:argument"
+            s!"call {u} (caller gone): the plugin sent {c.list.length} updates, UpdateFn received {f.list.length}{if f.list.length == c.list.length then " (different content or order)" else ""}"
+      if o.done then
+        match o.err with
+        | some _ =>
+          if !o.failed.isEmpty then
+            (ok, sig, why) := fail ok sig why "C19:passthrough:list-with-error"
+              s!"call {u} (caller gone): the plugin got an error and {o.failed.length} failed updates"
+        | none =>
+          if c.err.isSome then
+            (ok, sig, why) := fail ok sig why "C19:passthrough:error-swallowed"
+              s!"call {u} (caller gone): UpdateFn failed with {showErr c.err}, the plugin got success"
+          else if o.failed != c.failed then
+            (ok, sig, why) := fail ok sig why "C19:passthrough:failed-list"
+              s!"call {u} (caller gone): UpdateFn returned {c.failed.length} failed updates, the plugin got {o.failed.length} and no error"
+    else if !o.done then
       (ok, sig, why) := fail ok sig why "C19:blocked" s!"call {u} of plugin {c.p} never returned"
     else
       let inv := fnOf[u]!
@@ -296,7 +332,15 @@ def judge (j : Json) : Except String Verdict := do
     let o := co[u]!
     if o.s1 != 0 then items := items.push { key := 4 * o.s1, sub := 0, ev := .call u c.p c.list }
     if o.done then
-      items := items.push { key := 4 * o.s2, sub := 0, ev := .ret u (o.failed, o.err.map .rpc) }
+      let out : List A × Option (StubErr E) := (o.failed, o.err.map .rpc)
+      match c.gone, o.err with
+      | true, some e =>
+        -- the caller went away: the transport's error (`gone`), unless it is the callback's own
+        if out == expected (⟨c.failed, c.err⟩ : FnResult A E) then
+          items := items.push { key := 4 * o.s2, sub := 0, ev := .ret u out }
+        else
+          items := items.push { key := 4 * o.s2, sub := 0, ev := .gone u (.rpc e) }
+      | _, _ => items := items.push { key := 4 * o.s2, sub := 0, ev := .ret u out }
     for i in fnOf[u]! do
       let f := fns[i]!
       items := items.push { key := 4 * f.sin, sub := 0, ev := .enter u }
@@ -327,6 +371,7 @@ def judge (j : Json) : Except String Verdict := do
           | .handler r p => s!"handler of plugin {p} for request {r}"
           | .reqEnd r => s!"request {r} ended"
           | .callUnstarted _ _ _ => "unstarted"
+          | .gone u _ => s!"caller of call {u} went away"
         let holder := match s.mu with
           | none => "nobody"
           | some (.req r) => s!"request {r}"
@@ -348,12 +393,35 @@ def judge (j : Json) : Except String Verdict := do
   if callsI.any (fun c => c.list.length ≥ 5) then cover := "list:>=5" :: cover
   if callsI.any (fun c => c.err.isNone && !c.failed.isEmpty) then cover := "failed:nonempty" :: cover
   if callsI.any (fun c => c.err.isSome && !c.failed.isEmpty) then cover := "failed:with-error" :: cover
+  -- the lostconn stream: did every step happen while the callback of the gone call was running?
+  let mut lostEffective := false
+  if kind == "lostconn" then
+    let m := (getOpt obs "marks").getD Json.null
+    let entered := getNatD m "entered"
+    let fault := getNatD m "fault"
+    let probes := getNatD m "probes"
+    let ctxDone := getNatD m "ctx_done"
+    let hold := getNatD m "hold"
+    let faultKind := getStrD inp "fault"
+    let fout := ((fns.filter (fun f => f.sin == entered)).map (·.sout)).foldl max 0
+    let nReq := hs.size
+    let nUpd := (callsI.filter (fun c => !c.gone)).size
+    lostEffective := entered != 0 && entered < fault && entered < probes && fault < hold && probes < hold &&
+      hold < fout && (faultKind == "cancel" || (ctxDone != 0 && ctxDone < hold)) && (nReq + nUpd > 0)
+    let goneRet := match (callsO.filter (fun c => goneU c.u))[0]? with
+      | some o => if !o.done then "none" else if o.err.isSome then "error" else "result"
+      | none => "?"
+    cover := s!"lostconn:{if lostEffective then "effective" else "ineffective"}" :: s!"fault:{faultKind}" ::
+      s!"order:{getStrD inp "order"}" :: s!"gone-ret:{goneRet}" ::
+      s!"probes:{if nReq > 0 && nUpd > 0 then "req+upd" else if nReq > 0 then "req" else if nUpd > 0 then "upd" else "none"}" ::
+      s!"attempts:{getNatD m "attempts"}" :: s!"ctx-done:{if ctxDone == 0 then "unseen" else if ctxDone < hold then "before-hold" else "late"}" :: cover
   if onlyRequestsPending && ok then
     return { agree := rej.isNone, spec := true, excluded := true, sig := "request-never-returned",
              why := s!"all update calls returned, but a runtime request was still pending after the deadline; goroutines: {(getStrD obs "stacks").take 1500}",
              cover := "anomaly:request-never-returned" :: cover }
   pure { agree := agreeWhy == "", spec := ok, why := if !ok then why else agreeWhy, sig := sig, cover := cover,
-         nontrivial := (if rt > 0 then overdue > 0 else contended > 0) || kind == "cfgupd",
+         nontrivial := if kind == "lostconn" then lostEffective else
+           (if rt > 0 then overdue > 0 else contended > 0) || kind == "cfgupd",
          model := Json.mkObj [("calls", nU), ("invocations", fns.size), ("handlers", hs.size),
                               ("contended", contended), ("accepted", rej.isNone)] }
 
